@@ -73,6 +73,26 @@ def model():
         class Course(db.Entity):
             id = orm.PrimaryKey(int)
             students = orm.Set(Person)
+
+        # a cascade of two levels that ends in a one-to-one, next to a collection that refuses the delete
+        class Folder(db.Entity):
+            id = orm.PrimaryKey(int)
+            notes = orm.Set('Note', cascade_delete=True)
+            locks = orm.Set('Lock', cascade_delete=False)
+
+        class Note(db.Entity):
+            id = orm.PrimaryKey(int)
+            folder = orm.Required(Folder)
+            text = orm.Optional(str)
+            attachment = orm.Optional('Attachment', cascade_delete=True)
+
+        class Attachment(db.Entity):
+            id = orm.PrimaryKey(int)
+            note = orm.Required(Note)
+
+        class Lock(db.Entity):
+            id = orm.PrimaryKey(int)
+            folder = orm.Required(Folder)
         db.generate_mapping(create_tables=True)
         with orm.db_session:
             g1 = Group(id=1); g2 = Group(id=2)
@@ -82,9 +102,11 @@ def model():
             p3 = Person(id=3, name='p3', u=30, a=3, b=3, c=3, group=g2, courses=[c2])
             p4 = Person(id=4, name='p4', u=40, a=4, b=4, c=4)
             Passport(id=1, person=p1)
+            f1 = Folder(id=1); n20 = Note(id=20, folder=f1); Note(id=21, folder=f1); Lock(id=1, folder=f1)
+            f2 = Folder(id=2); n30 = Note(id=30, folder=f2); Attachment(id=3, note=n30); Lock(id=2, folder=f2)
             Locker(id=1, owner=p1); Locker(id=2); Locker(id=3, owner=p2)
             Tag(id=1, code=100, owner=p1); Tag(id=2, code=200, owner=p1); Tag(id=3, code=300, owner=p3)
-        _M = types.SimpleNamespace(db=db, Person=Person, Passport=Passport, Group=Group, Course=Course, Tag=Tag, Locker=Locker)
+        _M = types.SimpleNamespace(db=db, Person=Person, Passport=Passport, Group=Group, Course=Course, Tag=Tag, Locker=Locker, Folder=Folder, Note=Note, Attachment=Attachment, Lock=Lock)
     return _M
 
 
@@ -267,6 +289,9 @@ def _ops(M):
         'delete refused after cascading to a created object (mixed)': lambda: (M.Tag(id=9, code=900, owner=P[1]), _arm(), P[1].delete()),
         'delete refused after cascading to an object whose edit is the first pending write (mixed)': lambda: (setattr(M.Tag[1], 'code', 555), _arm(), P[1].delete()),
         'delete refused after cascading to two edited objects (mixed)': lambda: (setattr(P[2], 'name', 'zz'), setattr(M.Tag[1], 'code', 555), _arm(), P[1].delete()),
+        'refused delete after a two-level cascade into a new one-to-one partner (mixed)': lambda: (_load_folder(M, 1), M.Attachment(id=7, note=M.Note[20]), _arm(), M.Folder[1].delete()),
+        'refused delete after a two-level cascade into a loaded one-to-one partner (mixed)': lambda: (_load_folder(M, 2), _arm(), M.Folder[2].delete()),
+        'refused delete after a two-level cascade, a note edited first (mixed)': lambda: (_load_folder(M, 1), setattr(M.Note[21], 'text', 'edited'), M.Attachment(id=7, note=M.Note[20]), _arm(), M.Folder[1].delete()),
         'delete a created object (mixed)': lambda: (cur().state.__setitem__('n', P(id=9, name='x', u=77, group=G[2], courses=[C[1]])), _arm(), cur().state['n'].delete()),
         'refused delete with pending collection changes (mixed)': lambda: (P[1].courses.remove(C[1]), P[1].courses.add(C[3]), _arm(), P[1].delete()),
         'set fails after replacing a collection that has pending changes (mixed)': lambda: (P[2].courses.add(C[3]), P[2].courses.remove(C[2]), _arm(), P[2].set(courses=[C[1]], u=10)),
@@ -276,6 +301,12 @@ def _ops(M):
         'set extends a collection that has a pending addition, then fails (mixed)': lambda: (P[4].courses.add(C[1]), _arm(), P[4].set(courses=[C[1], C[2]], u=10)),
         'delete cascades to created and loaded (mixed)': lambda: (M.Tag(id=9, code=900, owner=P[3]), _arm(), P[3].delete()),
     }
+
+
+def _load_folder(M, k):
+    """everything the delete will touch is loaded beforehand: loading is not a change"""
+    f = M.Folder[k]
+    return [(n.text, n.attachment and n.attachment.note) for n in f.notes], list(f.locks)
 
 
 def _arm():
